@@ -6,7 +6,7 @@
    "complete without error": the model's editors are total functions; runtime
    exceptions of the implementation can only be searched (oracle). *)
 From Coq Require Import List ZArith QArith Bool Arith.
-From PV Require Import Model.Types Model.Sim Model.LogEdit Proofs.Base Proofs.C0708Proof Proofs.C18Proof.
+From PV Require Import Model.Types Model.Sim Model.LogEdit Proofs.Base Proofs.C0708Proof Proofs.C18Proof Proofs.C18Extra.
 Import ListNotations.
 Open Scope nat_scope.
 
@@ -80,3 +80,34 @@ Example C18_example :
   ins_seq (fun _ _ => 0%Q) [0; 2; 9] [5; 6; 7]%Q = [0; 5; 0; 6; 7]%Q
   /\ rem_seq [0; 2; 9] (ins_seq (fun _ _ => 0%Q) [0; 2; 9] [5; 6; 7]%Q) = [5; 6; 7]%Q.
 Proof. vm_compute. split; reflexivity. Qed.
+
+(* the removal, too, changes every log by one common number of entries (a
+   function of the old length and the listed steps only) *)
+Theorem C18_remove_same_change_everywhere : forall c ab s, Lens c s (time s) ->
+  let s' := snd (remove_absence c (ab, s)) in Lens c s' (len_rem (sorted_set ab) (time s)).
+Proof. exact remove_same_delta. Qed.
+Print Assumptions C18_remove_same_change_everywhere.
+
+(* steps beyond the end of the run: a log is left as it is by both editors, and
+   at project level neither project.time nor the common length changes *)
+Theorem C18_steps_beyond_the_end_change_no_log : forall A (mk : nat -> list A -> A) steps (l : list A),
+  (forall k, In k steps -> length l <= k) -> rem_seq steps l = l /\ ins_seq mk steps l = l.
+Proof. intros A mk steps l H. split; [apply rem_seq_beyond|apply ins_seq_beyond]; exact H. Qed.
+Print Assumptions C18_steps_beyond_the_end_change_no_log.
+
+Theorem C18_remove_beyond_the_end : forall c ab s, Lens c s (time s) ->
+  (forall k, In k ab -> time s <= k) ->
+  let s' := snd (remove_absence c (ab, s)) in time s' = time s /\ Lens c s' (time s).
+Proof. exact remove_beyond_end_keeps_time. Qed.
+Print Assumptions C18_remove_beyond_the_end.
+
+Theorem C18_insert_beyond_the_end : forall c l ab s, Lens c s (time s) ->
+  (forall k, In k l -> time s <= k) ->
+  let s' := snd (insert_absence c l (ab, s)) in time s' = time s /\ Lens c s' (time s).
+Proof. exact insert_beyond_end_keeps_time. Qed.
+Print Assumptions C18_insert_beyond_the_end.
+
+Example C18_example_beyond :
+  rem_seq [3; 9] [5; 6; 7]%Q = [5; 6; 7]%Q /\ ins_seq (fun _ _ => 0%Q) [3; 9] [5; 6; 7]%Q = [5; 6; 7]%Q
+  /\ len_rem [0; 1; 7] 3 = 1.
+Proof. vm_compute. repeat split. Qed.
